@@ -183,6 +183,17 @@ def judge(ctx, case):
     live_all = cube.calculate(funcs)          # the result objects themselves are kept ...
     r_all = [freeze(r) for r in live_all]     # ... next to copies taken at once
     ctx.count("calls:calculate")
+
+    def earlier_results_intact(after):
+        # a result belongs to the caller: nothing computed later may change an array that was already returned
+        ctx.count("earlier_results_rechecked")
+        for i, (lv, fz) in enumerate(zip(live_all, r_all)):
+            if not same(lv, fz):
+                ctx.violation("returned-result-changed-later:%s:%s" % (kind, case["aggs"][i]),
+                              "the arrays returned by the first calculate (function %d, %s) had changed after %s: a result "
+                              "is a view of state the library goes on using" % (i, case["aggs"][i], after), case)
+                return False
+        return True
     if not w.check("calculate(list)"):
         return
     for i, fn in enumerate(funcs):
@@ -191,6 +202,8 @@ def judge(ctx, case):
         if not same(alone, r_all[i]):
             ctx.violation("list-vs-alone:%s:%s" % (kind, case["aggs"][i]),
                           "calculate(list)[%d] (%s) differs from calculate([it])[0]" % (i, case["aggs"][i]), case)
+            return
+        if not earlier_results_intact("calculate([function %d]) on the same cube" % i):
             return
     if not w.check("calculate([one])"):
         return
@@ -241,14 +254,8 @@ def judge(ctx, case):
         if not all(same(a, b) for a, b in zip(back, r_all)):
             ctx.violation("reuse-other-cube:%s" % feat, "after using the same aggregate objects on another cube the results on the first cube change", case)
             return
-    # a result belongs to the caller: nothing computed later may change an array that was already returned
-    ctx.count("earlier_results_rechecked")
-    for i, (lv, fz) in enumerate(zip(live_all, r_all)):
-        if not same(lv, fz):
-            ctx.violation("returned-result-changed-later:%s:%s" % (kind, case["aggs"][i]),
-                          "the arrays returned by the first calculate (function %d, %s) were changed by later calls: a result "
-                          "is a view of state the library goes on using" % (i, case["aggs"][i]), case)
-            return
+    if not earlier_results_intact("the calls above (permuted lists, other cubes)"):
+        return
     if dense:
         # ... and on a cube without dimensions in between (same rows, one cell)
         zero = cls([])
